@@ -277,4 +277,6 @@ func run(c *hlib.Ctx) {
 	runXform(c, g, n/2+1)
 	// translation validation of the regenerated kernels (lean/M3d/Gen/Kernels.lean)
 	hlib.RunKernels(c, "c06", n/60+3)
+	// triangles with a repeated corner, meshes with such slivers (last: the cases above keep their inputs)
+	runTriDeg(c, g, n/2+1)
 }
